@@ -114,6 +114,10 @@ func classify(c *Config, v *kit.Violation) *kit.Violation {
 type C19Case struct {
 	Cfg   Config     `json:"cfg"`
 	Steps []CtrlStep `json:"steps,omitempty"`
+	// SharedPIDs: the operations belong to several processes that use the same
+	// addresses (virtually tagged caches keep one copy per process; only the
+	// directory invariants are judged then, not the data)
+	SharedPIDs bool `json:"shared_pids,omitempty"`
 }
 
 func genC19(r *kit.Rand, t kit.Tier) C19Case {
@@ -145,6 +149,17 @@ func genC19(r *kit.Rand, t kit.Tier) C19Case {
 		}
 	}
 
+	if r.Chance(1, 4) {
+		c.SharedPIDs = true
+		npid := r.Range(2, 3)
+
+		for i := range c.Cfg.Reqs {
+			for k := range c.Cfg.Reqs[i].Ops {
+				c.Cfg.Reqs[i].Ops[k].PID = uint32(1 + r.Intn(npid))
+			}
+		}
+	}
+
 	return c
 }
 
@@ -154,6 +169,11 @@ func execC19(cc C19Case, _ *kit.Env) kit.Outcome {
 	c := cc.Cfg
 	w := NewWorld()
 	InstallDirectoryMonitor(w, "C19")
+
+	if cc.SharedPIDs {
+		w.NoDataCheck = true
+		out.Probe("several-processes-on-the-same-addresses", 1)
+	}
 
 	if len(cc.Steps) > 0 {
 		// an invalidate may drop dirty lines of a write-back cache: the flat-memory
@@ -292,11 +312,11 @@ func init() {
 					continue
 				}
 
-				out = append(out, C19Case{Cfg: q, Steps: c.Steps})
+				out = append(out, C19Case{Cfg: q, Steps: c.Steps, SharedPIDs: c.SharedPIDs})
 			}
 
 			if len(c.Steps) > 0 {
-				out = append(out, C19Case{Cfg: c.Cfg})
+				out = append(out, C19Case{Cfg: c.Cfg, SharedPIDs: c.SharedPIDs})
 			}
 
 			return out
